@@ -107,8 +107,14 @@ func applyJQPatch(jqFilter string, fl filter.Filter, obj *unstructured.Unstructu
 			"error: %s", jqFilter, obj, err)
 	}
 
+	filteredObj, ok := filterResult.(map[string]any)
+	if !ok {
+		return nil, fmt.Errorf("failed to apply jqFilter:\n%sto Object:\n%s\n"+
+			"error: result is not an object", jqFilter, obj)
+	}
+
 	retObj := &unstructured.Unstructured{
-		Object: filterResult,
+		Object: filteredObj,
 	}
 
 	return retObj, nil
